@@ -69,6 +69,27 @@ func docFor(kinds map[string]string, path string, leaf any, injectLevel int) map
 			return map[string]any{"deb": build(i+1, objLevel)}
 		}
 		m := map[string]any{seg: build(i+1, objLevel+1)}
+		if i == len(segs)-1 {
+			// the object that holds the leaf is filled in completely (every scalar sibling with a typed value): a
+			// document must not be rejected for an unrelated reason – a required sibling that is missing – when what
+			// is being asked is whether an unknown key next to the leaf is noticed
+			prefix := strings.Join(segs[:i], ".")
+			for q, k := range kinds {
+				if prefix == "" || !strings.HasPrefix(q, prefix+".") {
+					continue
+				}
+				rest := strings.TrimPrefix(q, prefix+".")
+				if strings.Contains(rest, ".") || rest == seg {
+					continue
+				}
+				switch k {
+				case "string", "int", "bool":
+					if !docSiblingSkip[strings.TrimPrefix(q, "overrides.{}.")] {
+						m[rest] = leafFor(k)
+					}
+				}
+			}
+		}
 		if objLevel == injectLevel {
 			m["zzz_unknown_key"] = "x"
 		}
@@ -81,6 +102,13 @@ func docFor(kinds map[string]string, path string, leaf any, injectLevel int) map
 	}
 	return root
 }
+
+// docSiblingSkip: sibling keys that are not filled in with a generic typed value because only particular values are
+// valid for them (enumerated settings, paths that must exist); the leaf under test is still set by the caller.
+var docSiblingSkip = map[string]bool{"rpm.compression": true, "deb.compression": true, "deb.signature.method": true, "deb.signature.type": true,
+	"version_schema": true, "contents.[].type": true, "contents.[].packager": true, "contents.[].src": true, "contents.[].dst": true, "contents.[].expand": true,
+	"version": true, "name": true, "arch": true, "epoch": true, "release": true, "prerelease": true, "version_metadata": true, "platform": true,
+	"changelog": true, "mtime": true, "umask": true, "disable_globbing": true}
 
 // objectLevels counts the object nesting levels on a path (where a key could be misspelled)
 func objectLevels(path string) int {
@@ -260,7 +288,7 @@ func runC16(c *Ctx) error {
 	for _, p := range lists[1] {
 		expSlice[p+".[]"] = true
 	}
-	fam3 := c.Rep.Family("expansion-scope", "every string-valued key path: value '${VERIF_X}' under a mapping VERIF_X -> ' exp ' must be substituted iff the source passes the field through os.Expand (static table G4), and a '$'-free value must come back as written (list items only trimmed); a substituted value that itself contains '$' must not be expanded again (one pass); contents src/dst with and without expand: true; passphrase precedence over all 16 combinations of the four NFPM_*PASSPHRASE variables; non-trivial = every case")
+	fam3 := c.Rep.Family("expansion-scope", "every string-valued key path: values '${VERIF_X}', '$VERIF_X', 'lib-$VERIF_X.so', '/usr/$VERIF_X/${VERIF_X}x' under a mapping VERIF_X -> ' exp ' must be substituted (what a value denotes: the model of os.Expand) iff the source passes the field through os.Expand (static table G4), and a '$'-free value must come back as written (list items only trimmed); a substituted value that itself contains '$' must not be expanded again (one pass); contents src/dst with and without expand: true; passphrase precedence over all 16 combinations of the four NFPM_*PASSPHRASE variables; non-trivial = every case")
 	env := map[string]string{"VERIF_X": " exp "}
 	for _, p := range order {
 		if kinds[p] != "string" {
@@ -269,7 +297,7 @@ func runC16(c *Ctx) error {
 		if strings.Contains(p, "contents.[]") {
 			continue
 		}
-		for _, val := range []string{"${VERIF_X}", "plain value", " padded "} {
+		for _, val := range []string{"${VERIF_X}", "plain value", " padded ", "$VERIF_X", "lib-$VERIF_X.so", "/usr/$VERIF_X/${VERIF_X}x"} {
 			cfg, err := parse(docFor(kinds, p, val, -1), env)
 			fam3.Eval(p+"|"+val, true)
 			if err != nil {
@@ -281,11 +309,19 @@ func runC16(c *Ctx) error {
 			}
 			g := got.String()
 			var want string
+			hasRef := strings.Contains(val, "$")
+			// what the reference denotes: the model of os.Expand (family os-expand ties it to the library)
+			denoted := val
+			if hasRef {
+				if a, derr := c.D.Ask(fmt.Sprintf("expand %s %s", encEnv(env), wire.H(val))); derr == nil {
+					denoted, _ = wire.UnH(a)
+				}
+			}
 			switch {
-			case val == "${VERIF_X}" && expScalar[p]:
-				want = " exp "
-			case val == "${VERIF_X}" && expSlice[p]:
-				want = "exp"
+			case hasRef && expScalar[p]:
+				want = denoted
+			case hasRef && expSlice[p]:
+				want = strings.TrimSpace(denoted)
 			case expSlice[p]:
 				want = strings.TrimSpace(val)
 			default:
@@ -293,19 +329,22 @@ func runC16(c *Ctx) error {
 			}
 			if p == "version" || p == "platform" || p == "arch" || p == "description" {
 				// defaults / semver normalisation rewrite these: only check the substitution happened
-				if val == "${VERIF_X}" && strings.Contains(g, "VERIF_X") {
+				if hasRef && strings.Contains(g, "VERIF_X") {
 					c.Rep.Find(report.Finding{Property: "C16", Family: "expansion-scope", Shape: "documented-field-not-expanded", What: p + " kept the reference", Input: map[string]any{"path": p}})
 				}
 				continue
 			}
 			if g != want {
 				shape := "value-changed"
-				if val == "${VERIF_X}" {
+				if hasRef {
 					shape = "expansion-table-differs"
 				}
 				c.Rep.Disagree(report.Disagreement{Family: "expansion-scope", What: shape + ": parsed value vs static table G4", Input: map[string]any{"path": p, "value": val}, Model: fmt.Sprintf("%q", want), Impl: fmt.Sprintf("%q", g)})
-				if val != "${VERIF_X}" {
+				if !hasRef {
 					c.Rep.Find(report.Finding{Property: "C16", Family: "expansion-scope", Shape: "dollar-free-value-changed", What: fmt.Sprintf("%s: %q became %q", p, val, g), Input: map[string]any{"path": p, "value": val}})
+				} else if val != "${VERIF_X}" && (expScalar[p] || expSlice[p]) {
+					// the field is one that is expanded (the braced form is): every form of reference must be
+					c.Rep.Find(report.Finding{Property: "C16", Family: "expansion-scope", Shape: "reference-form-not-substituted", What: fmt.Sprintf("%s: %q became %q, the reference denotes %q", p, val, g, want), Input: map[string]any{"path": p, "value": val, "mapping": env}})
 				}
 			}
 		}
@@ -331,22 +370,31 @@ func runC16(c *Ctx) error {
 				Input: map[string]any{"path": p, "value": "${VERIF_Z}", "mapping": env2}})
 		}
 	}
-	// contents opt-in
+	// contents opt-in, every form of reference
 	for _, opt := range []bool{false, true} {
-		doc := map[string]any{"name": "p", "arch": "amd64", "version": "1.0.0",
-			"contents": []any{map[string]any{"src": "${VERIF_X}/a", "dst": "/opt/${VERIF_X}", "expand": opt}}}
-		cfg, err := parse(doc, env)
-		fam3.Eval(fmt.Sprint("contents-expand=", opt), true)
-		if err != nil {
-			continue
-		}
-		ct := cfg.Contents[0]
-		wantS, wantD := "${VERIF_X}/a", "/opt/${VERIF_X}"
-		if opt {
-			wantS, wantD = "exp /a", "/opt/ exp"
-		}
-		if ct.Source != wantS || ct.Destination != wantD {
-			c.Rep.Find(report.Finding{Property: "C16", Family: "expansion-scope", Shape: fmt.Sprintf("contents-expand-%v", opt), What: fmt.Sprintf("src=%q dst=%q", ct.Source, ct.Destination), Input: map[string]any{"expand": opt}})
+		for _, form := range [][2]string{{"${VERIF_X}/a", "/opt/${VERIF_X}"}, {"$VERIF_X/a", "/opt/$VERIF_X"}, {"/src/$VERIF_X.so", "/usr/lib/$VERIF_X/lib${VERIF_X}.so"}, {"plain/src", "/plain/dst"}} {
+			doc := map[string]any{"name": "p", "arch": "amd64", "version": "1.0.0",
+				"contents": []any{map[string]any{"src": form[0], "dst": form[1], "expand": opt}}}
+			cfg, err := parse(doc, env)
+			fam3.Eval(fmt.Sprint("contents-expand=", opt, form), true)
+			if err != nil || len(cfg.Contents) != 1 {
+				continue
+			}
+			ct := cfg.Contents[0]
+			wantS, wantD := form[0], form[1]
+			if opt {
+				for k, v := range [2]*string{&wantS, &wantD} {
+					if a, derr := c.D.Ask(fmt.Sprintf("expand %s %s", encEnv(env), wire.H(form[k]))); derr == nil {
+						d, _ := wire.UnH(a)
+						*v = strings.TrimSpace(d)
+					}
+				}
+			}
+			if ct.Source != wantS || ct.Destination != wantD {
+				c.Rep.Find(report.Finding{Property: "C16", Family: "expansion-scope", Shape: fmt.Sprintf("contents-expand-%v", opt),
+					What:  fmt.Sprintf("src %q dst %q with expand: %v parsed to src=%q dst=%q, expected src=%q dst=%q", form[0], form[1], opt, ct.Source, ct.Destination, wantS, wantD),
+					Input: map[string]any{"expand": opt, "src": form[0], "dst": form[1], "mapping": env}})
+			}
 		}
 	}
 	// passphrase precedence
